@@ -952,7 +952,7 @@ import time
 class C12Engine(object):
     prop = "C12"
     executor = "sim.c12:execute_history_c12"
-    TIERS = {"quick": dict(nsynth=10, rounds=2, per_round=400, selftest=24, min_classes=8, min_budget=120),
+    TIERS = {"quick": dict(nsynth=10, rounds=2, per_round=700, selftest=24, min_classes=8, min_budget=120),
              "thorough": dict(nsynth=80, rounds=30, per_round=960, selftest=200, min_classes=16, min_budget=240)}
 
     def __init__(self, args):
